@@ -21,7 +21,7 @@ CHECKS = {
     'C16': dict(
         text='FxPointing.tla transcribes get_rotation_matrix entry by entry over exact (cos, sin) pairs (quarter turns and '
              'Pythagorean angles) and TLC checks it equals Rz(phi) Ry(theta) Rz(psi), is orthogonal with determinant one '
-             '(ASSUME, all 12 Euler triples); MC_Pointing rotates exact unit detector directions one sample per step (the '
+             '(ASSUME, all 17 Euler triples, incl. colatitudes inside both polar caps); MC_Pointing rotates exact unit detector directions one sample per step (the '
              'loop of the einsum) over 6 layouts (1-2 detectors x 1-2 directions) and every sequence of <= 2 (quick) / 3 '
              '(thorough) pointings, with unit-norm and count invariants, and emits the exact rotated directions and the exact '
              '(cos 2psi, sin 2psi). Replay on create_projection_operator / create_acquisition for the four Stokes kinds and '
